@@ -29,7 +29,7 @@ var initAllow = []string{
 	modPath, modPath + "/utils", modPath + "/loaders/multi", modPath + "/loaders/httpfs", modPath + "/loaders/embedfs",
 	"github.com/CloudyKit/fastprinter",
 	"unicode", "unicode/utf8", "strings", "bytes", "path", "path/filepath", "strconv",
-	"html", "io", "io/fs", "sort", "text/template", "math", "math/bits", "internal/filepathlite", "internal/oserror",
+	"html", "io", "io/fs", "sort", "text/template", "text/template/parse", "math", "math/bits", "internal/filepathlite", "internal/oserror",
 	"internal/stringslite", "unicode/utf16", "net/url", "slices", "cmp", "io/ioutil", "internal/itoa", "internal/byteorder",
 }
 
@@ -70,14 +70,25 @@ func overlayFiles(repo, verifDir string) (map[string][]byte, []string, error) {
 }
 
 func loadProgram(repo, verifDir string) (*program, error) {
+	return loadProgramX(repo, verifDir, false, nil)
+}
+
+// loadProgramX loads the packages under test with the harness overlay; with tests set the
+// test variants (package + its _test.go files + extra overlay files) are loaded as well and
+// are the ones harnesses are looked up in.
+func loadProgramX(repo, verifDir string, tests bool, extra map[string][]byte) (*program, error) {
 	ov, names, err := overlayFiles(repo, verifDir)
 	if err != nil {
 		return nil, err
+	}
+	for k, v := range extra {
+		ov[k] = v
 	}
 	cfg := &packages.Config{
 		Mode:    packages.LoadAllSyntax,
 		Dir:     repo,
 		Overlay: ov,
+		Tests:   tests,
 		Env:     append(os.Environ(), "GOFLAGS=-mod=mod", "GOPROXY=off", "GOSUMDB=off", "GOTOOLCHAIN=local", "CGO_ENABLED=0"),
 	}
 	pats := []string{modPath, modPath + "/utils", modPath + "/loaders/multi", modPath + "/loaders/httpfs", modPath + "/loaders/embedfs"}
@@ -102,9 +113,28 @@ func loadProgram(repo, verifDir string) (*program, error) {
 		p.pkgs[sp.Pkg.Path()] = sp
 	}
 	var reset []*ssa.Package
-	for _, path := range pats {
-		if sp := p.pkgs[path]; sp != nil {
-			reset = append(reset, sp)
+	if tests {
+		// plain packages first, then their test variants (which shadow them in p.pkgs)
+		variants := map[string][]*ssa.Package{}
+		packages.Visit(initial, nil, func(lp *packages.Package) {
+			if sp := prog.Package(lp.Types); sp != nil && lp.Types != nil {
+				isTest := strings.Contains(lp.ID, "[")
+				if isTest {
+					variants[lp.PkgPath] = append(variants[lp.PkgPath], sp)
+					p.pkgs[lp.PkgPath] = sp
+				} else {
+					variants[lp.PkgPath] = append([]*ssa.Package{sp}, variants[lp.PkgPath]...)
+				}
+			}
+		})
+		for _, path := range pats {
+			reset = append(reset, variants[path]...)
+		}
+	} else {
+		for _, path := range pats {
+			if sp := p.pkgs[path]; sp != nil {
+				reset = append(reset, sp)
+			}
 		}
 	}
 	if fp := p.pkgs["github.com/CloudyKit/fastprinter"]; fp != nil {
